@@ -6,7 +6,7 @@ use vstd::std_specs::cmp::*;
 use std::collections::HashMap;
 use std::collections::HashSet;
 use vstd::std_specs::hash::*;
-//@broadcast vstd::std_specs::hash::group_hash_axioms, keymodels::group_key_models, vstd::arithmetic::mul::lemma_mul_is_commutative
+//@broadcast vstd::std_specs::hash::group_hash_axioms, keymodels::group_key_models
 
 pub trait ContentAddrStore {}
 
